@@ -214,6 +214,34 @@ def scenarios(mode, wd):
     return res
 
 
+def pywfa_contract():
+    """the stub aligner's contract (C12) checked against the real pywfa on the repository's realign fixtures"""
+    loader.install("plain")
+    import pysam
+    from pywfa.align import WavefrontAligner
+    from gaftools.gfa import GFA
+    from gaftools.gaf import GAF
+
+    problems = []
+    g = GFA(os.path.join(D, "smallgraph.gfa"))
+    fa = pysam.FastaFile(os.path.join(D, "reads.fa"))
+    gaf = GAF(os.path.join(D, "alignments-graphaligner.gaf"))
+    for al in gaf.read_file():
+        ref = g.extract_path(al.path)[al.path_start:al.path_end]
+        q = fa.fetch(al.query_name, al.query_start, al.query_end)
+        a = WavefrontAligner(ref)
+        res = a(q, clip_cigar=False)
+        ops = res.cigartuples
+        if any(op not in (0, 1, 2, 8) for op, ln in ops) or any(ln < 1 for op, ln in ops):
+            problems.append("unexpected cigar operation in %r" % (ops,))
+        if sum(ln for op, ln in ops if op in (0, 8, 1)) != len(q) or sum(ln for op, ln in ops if op in (0, 8, 2)) != len(ref):
+            problems.append("cigartuples do not consume both sequences")
+        if a.cigarstring != "".join("%d%s" % (ln, {0: "M", 1: "I", 2: "D", 8: "X"}[op]) for op, ln in ops):
+            problems.append("cigarstring %r is not the rendering of cigartuples" % a.cigarstring)
+    gaf.close()
+    return problems
+
+
 WANT = set()
 
 
@@ -236,6 +264,14 @@ def main():
         shutil.rmtree(wd, ignore_errors=True)
     bad = []
     n = 0
+    if "realign_pre" in WANT:
+        try:
+            c = pywfa_contract()
+        except Exception as e:
+            c = ["exception %r" % (e,)]
+        n += 1
+        for x in c:
+            bad.append({"scenario": "pywfa-contract", "what": x, "plain": "", "twin": ""})
     for k in plain:
         a, b = plain[k], sym.get(k)
         for f in a:
